@@ -74,7 +74,25 @@ def generate(seed, tier, index):
     _force_chem(rs, spec)
     if rs.chance(0.35):
         _flagged_reactant(rs, spec)
-    entry = C.make_script_entry(rs, ru, rk, kind, None, {"steps": (3, 40), "p_ongrid": 0.05,
+    reservoir = kind != "euler" and rf.chance(0.08)
+    if reservoir:
+        # focused workload: a small flagged reservoir F consumed n at a time (n F -> P). The flag exempts F from the change,
+        # not from the combinatorial propensity F(F-1)..: at small F the difference to F^n is large
+        n = rs.choice([2, 2, 3])
+        nc_ = rs.choice([1, 2])
+        vol = (rs.loguniform(0.5, 2.0) * 1e-6) ** 3
+        F0 = float(rs.randint(n, n + 4))
+        spec = {"envs": ["cyt"],
+                "species": [{"label": "F", "D": [0.0], "dens": [0.0], "chst": [1]},
+                            {"label": "P", "D": [rs.loguniform(0.02, 1.0) * 1e-12 if nc_ > 1 else 0.0], "dens": [0.0], "chst": [0]}],
+                "reactions": [{"label": None, "sub": {"F": n}, "prod": {"P": 1},
+                               "kf": [rs.loguniform(0.2, 2.0) * (F0 / vol) ** (1 - n)], "kr": [0.0]}],
+                "space": {"type": "grid", "w": nc_, "h": 1, "d": 1, "bc": ["reflecting"] * 3, "cell_env": [0] * nc_, "vol": vol},
+                "state": [F0] * nc_ + [0.0] * nc_, "chem": None}
+        coobs = False
+    entry = C.make_script_entry(rs, ru, rk, kind, None, {"steps": (150, 300) if reservoir else (3, 40), "p_ongrid": 0.05,
+                                                         "p_zero_tmax": 0.0 if reservoir else 0.04, "p_explicit_tmax": 1.0 if reservoir else 0.4,
+                                                         "courant": (0.05, 0.3),
                                                          "isp": rk.choice(["auto", "auto", "redist", "Poisson"]) if kind != "euler" else "auto"},
                                 rich=rs.chance(0.5), spec=spec)
     spec = entry["phys"]["spec"]
@@ -86,7 +104,7 @@ def generate(seed, tier, index):
     m = Model(spec)
     eps = []
     applied = []
-    nrep = rf.wchoice([(1, 2), (2, 2)])
+    nrep = 1 if reservoir else rf.wchoice([(1, 2), (2, 2)])
     scripts = [entry]
     if nrep == 2 and kind != "euler":
         # the second set-up runs with another seed (an identical stochastic run would add no information)
@@ -147,7 +165,7 @@ def generate(seed, tier, index):
                     "ops": ops})
     return {"format": 1, "property": ID, "seed": seed, "tier": tier, "index": index, "build": "plain",
             "scripts": scripts, "lifetimes": [{"pyseed": rf.bits(30), "episodes": eps}],
-            "meta": {"kind": kind, "coobs": coobs, "applied": applied}}
+            "meta": {"kind": kind, "coobs": coobs, "applied": applied, "reservoir": reservoir}}
 
 
 def check(case, results):
